@@ -21,8 +21,15 @@ fn main() {
     let (mut systems, mut oks, mut errs, mut warns, mut degen_warns, mut permuted, mut fallbacks, mut typed_lookups) =
         (0usize, 0usize, 0usize, 0usize, 0usize, 0usize, 0usize, 0usize);
     let mut lint_warns = 0usize;
+    let mut large_systems = 0usize;
     for i in 0..n {
-        let mut sys = match i % 4 {
+        // one system in twelve is LARGE (35 ... 90 requests over several priority levels, with
+        // contradictions): orderings, index maps and buffers that only differ beyond a few dozen
+        // requests (a sort that is stable only for short inputs, a table sized from a count)
+        let large = i % 12 == 5;
+        if large { large_systems += 1; }
+        let mut sys = match if large { 4 } else { i % 4 } {
+            4 => { let k = rng.range(35, 90); gen_planted(&mut rng, k, 1e-2, &SHAPES) }
             0 => gen_planted(&mut rng, 6, 1e-2, &SHAPES),
             1 => gen_linear(&mut rng, 4, 8),
             2 => {
@@ -241,7 +248,7 @@ fn main() {
         }
     }
     println!(
-        "STATS {{\"systems\": {systems}, \"ok\": {oks}, \"err\": {errs}, \"warnings_checked\": {warns}, \"degenerate_warnings\": {degen_warns}, \"lint_warnings\": {lint_warns}, \"fallback_outcomes\": {fallbacks}, \"permuted_guess_lists\": {permuted}, \"typed_lookup_rounds\": {typed_lookups}, \"violations\": {}}}",
+        "STATS {{\"systems\": {systems}, \"large_systems\": {large_systems}, \"ok\": {oks}, \"err\": {errs}, \"warnings_checked\": {warns}, \"degenerate_warnings\": {degen_warns}, \"lint_warnings\": {lint_warns}, \"fallback_outcomes\": {fallbacks}, \"permuted_guess_lists\": {permuted}, \"typed_lookup_rounds\": {typed_lookups}, \"violations\": {}}}",
         out.len()
     );
 }
